@@ -3,6 +3,7 @@ Engine E3 + the deterministic work meter: exhaustive short inputs per decoder en
 TLV type x length x fill x single-octet override sweeps, single mutations of the unit-test corpus,
 inputs padded to 4096 octets. Verdict: interpreter steps of yabgp code <= 300 + 60 * len(input)."""
 import itertools
+import os
 import struct
 
 from .. import explore, report, budget, seeds
@@ -255,6 +256,44 @@ def task(args):
                 for body in (struct.pack('!H', len(field)) + field + b'\x00\x00', b'\x00\x00\x00\x00' + field):
                     for name in ('Update.parse', 'Update.parse(add-path ipv4)'):
                         check(name, body, 'ipv4 field tail', must_not_raise=True)
+    elif kind == 'drift':
+        # the work for the same octets must not grow with the number of earlier decodes in the process (an error object, a cache, a
+        # list that is kept and grows): every interpreter step is counted here, library code included, for the 5th and the 150th call
+        import sys as _sys
+        mon_ = _sys.monitoring
+        cnt = [0]
+
+        def _ev(*a):
+            cnt[0] += 1
+        body_ok = bytes.fromhex('0000001c400101004002060201000000fde940030' + '40a000002c00808fde90001fde90002' + '180a0101')
+        bad = [('prefix length 33', b'\x00\x00\x00\x00\x21\x0a\x00\x00\x00\x00'), ('withdrawn prefix length 200', b'\x00\x02\xc8\x0a\x00\x00'),
+               ('attribute length overruns', b'\x00\x00\x00\x04\x40\x01\x09\x00'), ('ORIGIN 7', b'\x00\x00\x00\x04\x40\x01\x01\x07'),
+               ('AS_PATH segment overruns', b'\x00\x00\x00\x07\x40\x02\x04\x02\x09\x00\x01'), ('unknown well-known attribute', b'\x00\x00\x00\x04\x40\x63\x01\x00'),
+               ('MP_REACH unknown family', b'\x00\x00\x00\x08\x80\x0e\x05\x00\x63\x63\x00\x00'), ('well-formed', body_ok)]
+        for label, body in bad:
+            from yabgp.message.update import Update
+            costs = []
+            for i in range(150):
+                if i in (4, 149):
+                    budget.uninstall()
+                    mon_.use_tool_id(5, 'vf-drift')
+                    mon_.register_callback(5, mon_.events.PY_START, _ev)
+                    mon_.register_callback(5, mon_.events.JUMP, _ev)
+                    mon_.set_events(5, mon_.events.PY_START | mon_.events.JUMP)
+                    cnt[0] = 0
+                try:
+                    Update.parse(None, body, True)
+                except Exception:      # noqa  (what is raised is judged elsewhere)
+                    pass
+                if i in (4, 149):
+                    costs.append(cnt[0])
+                    mon_.set_events(5, 0)
+                    mon_.free_tool_id(5)
+            n += 150
+            classes.add(('Update.parse', 'drift', label, costs[1] <= costs[0] * 1.2 + 20))
+            if costs[1] > costs[0] * 1.2 + 20:
+                v.append(('C11|Update.parse|%s|the work for the same octets grows with the number of earlier decodes' % label,
+                          {'entry': 'Update.parse', 'hex': body.hex(), 'interpreter_steps_5th_call': costs[0], 'interpreter_steps_150th_call': costs[1]}))
     elif kind == 'nested':
         # TLVs nested in themselves (depth 2..40, the inner TLV at several offsets of the value, innermost complete or cut short):
         # work must stay linear in the input
@@ -363,6 +402,9 @@ def task(args):
     return n, v, classes
 
 
+TASK_LIMIT = {'quick': 420, 'thorough': 1500}
+
+
 def run(tier, seed):
     tm = report.Timer()
     col = report.Collector(PROP)
@@ -378,6 +420,7 @@ def run(tier, seed):
     for i in range(0, len(lt), 8):
         tasks.append(('nested', lt[i:i + 8]))
         tasks.append(('hugetlv', lt[i:i + 8]))
+    tasks.append(('drift',))
     for lo in range(0, 256, 32):
         tasks.append(('dupattr', lo, lo + 32))
     for i in range(0, len(lt), 16):
@@ -394,7 +437,14 @@ def run(tier, seed):
         tasks.append(('seeds', short[i:i + 6], 'mut'))
     for i in range(0, len(corpus), 20):
         tasks.append(('seeds', corpus[i:i + 20], 'pad'))
-    res = explore.pmap(task, tasks, chunk=1)
+    # a task takes under a minute on the unchanged tree (quick; under five in thorough): one that is still running after TASK_LIMIT
+    # seconds is stopped and reported - the decoders of its cases do not finish "within a small bounded amount of work", whatever the
+    # step meter (which sees yabgp's own code only) says
+    limit = float(os.environ.get('VERIF_TASK_LIMIT', TASK_LIMIT[tier]))
+    res = explore.pmap(task, tasks, chunk=1, task_limit=limit)
+    res = [r if not isinstance(r, explore.TaskTimedOut) else
+           (0, [('C11|task %s|the decoding task did not finish within %d s of wall clock' % (t[0], limit),
+                 {'entry': 'task', 'hex': '', 'task': repr(t)[:300], 'limit_s': limit})], set()) for t, r in zip(tasks, res)]
     explore.close_pool()
     total = 0
     classes = set()
